@@ -173,6 +173,57 @@ def check(run):
                          dict(case=small, route=small["route"], first_difference=dd, impl_tokens=tt, model_tokens=mm, original_case=c))
     real_stream(run)
     potable_real_stream(run)
+    api_reuse(run)
+
+
+def api_reuse(run):
+    """the Python API as a program uses it: one tabulation object written, its model changed through the list it exposes, written again; potentials handed over as a
+    one-shot iterable.  Every table written must be the table of the potentials the object holds at that moment."""
+    rng = run.rng
+    reqs, cases = [], []
+    for _ in range(run.n(6, 40)):
+        nr = rng.randint(3, 20)
+        cut = Fr(nr - 1, 2 ** rng.randint(1, 3))
+        pots = [dict(a="A%d" % i, b=rng.choice(["O", "A0"]), fid=i + 1, analytic=True) for i in range(rng.randint(2, 4))]
+        k = rng.randint(1, len(pots) - 1)
+        cases.append((cut, nr, pots, k))
+        for sub in (pots[:k], pots):
+            reqs.append(dict(m="pair", op="lammps", cut=fq(cut), nr=nr, pots=[dict(a=p["a"], b=p["b"], fid=p["fid"]) for p in sub]))
+    models = lean_query(reqs)
+    for i, (cut, nr, pots, k) in enumerate(cases):
+        m_first, m_all = models[2 * i], models[2 * i + 1]
+        mk = lambda sub: [Potential(p["a"], p["b"], ApiTracer(p["fid"], True, "lammps")) for p in sub]
+        tab = LAMMPS_PairTabulation(mk(pots[:k]), float(cut), nr)
+        s1, s2 = io.StringIO(), io.StringIO()
+        tab.write(s1)
+        tab.potentials.extend(mk(pots[k:]))
+        tab.write(s2)
+        run.case(key=("api-reuse", "rewrite", nr, str(cut), k, len(pots)), kind="api-reuse/rewrite-after-change")
+        run.traces += 2
+        for which, text, model, n in (("first", s1.getvalue(), m_first, k), ("second (after %d potential(s) were appended to .potentials)" % (len(pots) - k), s2.getvalue(), m_all, len(pots))):
+            try:
+                d = first_diff(lammps_tokens(text, "api", [True] * n), model)
+            except Exception as e:
+                d = "output does not tokenise as a LAMMPS table: %s" % str(e)[:150]
+            if d:
+                run.fail("table-not-of-current-model", "LAMMPS_PairTabulation written twice: the %s table differs from the table of the potentials the object then holds: %s" % (which, d),
+                         dict(case=dict(cut=fq(cut), nr=nr, pots=pots, first_write=k), route="class, two writes"))
+                break
+        for kind, wrap in (("generator", lambda l: (x for x in l)), ("iterator", iter)):
+            for route in ("writePotentials", "class"):
+                s = io.StringIO()
+                try:
+                    if route == "class":
+                        LAMMPS_PairTabulation(wrap(mk(pots)), float(cut), nr).write(s)
+                    else:
+                        writePotentials("LAMMPS", wrap(mk(pots)), float(cut), nr, s)
+                    d = first_diff(lammps_tokens(s.getvalue(), "api", [True] * len(pots)), m_all)
+                except Exception as e:
+                    d = "raised %s: %s" % (type(e).__name__, str(e)[:100])
+                run.case(key=("api-reuse", kind, route, nr, str(cut), len(pots)), kind="api-reuse/one-shot-iterable")
+                run.traces += 1
+                if d:
+                    run.fail("table-not-of-current-model", "%s given the potentials as a %s: %s" % (route, kind, d), dict(case=dict(cut=fq(cut), nr=nr, pots=pots), route=route, iterable=kind))
 
 
 def potable_real_stream(run):
@@ -180,7 +231,17 @@ def potable_real_stream(run):
     column must be the expression's documented value and the force column minus its derivative (reference: the same expression composed through the
     Python API, differentiated numerically)."""
     nbad = 0
-    for cfg, cut, nr, ents in potable_real_models(run.rng, run.n(40, 500), "LAMMPS", lambda rng: rng.randint(3, 40)):
+    # crafted models: a factor of a product that is EXACTLY zero on one tabulated row (and not around it) - the force there is a'(r) b(r) + a(r) b'(r) like anywhere else
+    from atsim.potentials import potentialfunctions as pf
+    crafted = []
+    for txt, f, cut, nr in (
+            ("product(as.buck 1000.0 0.3 32.0, as.polynomial 1.0 -0.5)", lambda r: pf.buck(r, 1000.0, 0.3, 32.0) * (1.0 - 0.5 * r), 4.0, 9),
+            ("product(as.polynomial -3.0 1.0, as.lj 0.1 2.5)", lambda r: (-3.0 + r) * pf.lj(r, 0.1, 2.5), 6.0, 13),
+            ("product(as.bornmayer 800.0 0.35, as.polynomial 2.0 -1.0, as.constant 1.5)", lambda r: pf.bornmayer(r, 800.0, 0.35) * (2.0 - r) * 1.5, 5.0, 11),
+            ("sum(as.constant 1.0, product(as.polynomial 1.0 -0.25, as.morse 1.2 2.0 0.5))", lambda r: 1.0 + (1.0 - 0.25 * r) * pf.morse(r, 1.2, 2.0, 0.5), 8.0, 17)):
+        cfg = "[Tabulation]\ntarget : LAMMPS\ncutoff : %r\nnr : %d\n\n[Pair]\nA0-B : %s\n" % (cut, nr, txt)
+        crafted.append((cfg, cut, nr, [("A0", "B", f, [], txt)]))
+    for cfg, cut, nr, ents in crafted + potable_real_models(run.rng, run.n(40, 500), "LAMMPS", lambda rng: rng.randint(3, 40)):
         run.case(key=("potable-real", cfg), kind="potable-real", sample=dict(potable_file=cfg) if run.dist.get("potable-real", 0) < 1 else None)
         run.traces += 1
         try:
